@@ -152,6 +152,30 @@ Theorem c04_two_levels_of_calls :
 Proof. exact two_level_call. Qed.
 Print Assumptions c04_two_levels_of_calls.
 
+(* The whole two-level grammar: calls in the arguments, and in the body calls whose arguments hold parameter references.
+   The parameters are written into the argument texts of the body's calls first; the calls are then made with these
+   texts.  This is the code's order - it is why a value containing "=" turns an unnamed argument of such a call into a
+   named one (the known finding c04:substituted-value-with-equals-is-resplit, second example below): the rule proved here
+   is the rule the code follows, stated without fuel or path, not MediaWiki's on that point. *)
+Theorem c04_parameters_in_the_arguments_of_body_calls :
+  forall pfnames lib opts name args,
+    body_params_call_ok pfnames lib name args = true -> o_tfn opts = [] -> o_pfn opts = [] ->
+    exists F, forall fuel, (F <= fuel)%nat ->
+      expand_T pfnames lib opts fuel [FTitle] true (chars name :: args) = Some (body_params_result lib name args).
+Proof. exact body_params_call. Qed.
+Print Assumptions c04_parameters_in_the_arguments_of_body_calls.
+
+(* Template:t = "{{u|{{{1}}}}}", Template:u = "[{{{1|none}}}/{{{a|none}}}]": {{t|x}} gives "[x/none]"; {{t|1=a=b}} gives
+   "[none/b]" - the substituted value "a=b" was split at "=" (MediaWiki: "[a=b/none]") *)
+Example c04_body_params_example :
+  let u := [Ch 91; A [chars [49]; chars [110; 111; 110; 101]]; Ch 47; A [chars [97]; chars [110; 111; 110; 101]]; Ch 93] in
+  let lib := [mktpl [84] [T [chars [117]; [A [chars [49]]]]] false; mktpl [85] u false] in
+  body_params_call_ok [] lib [116] [chars [120]] = true /\
+  codes (body_params_result lib [116] [chars [120]]) = [91; 120; 47; 110; 111; 110; 101; 93] /\
+  body_params_call_ok [] lib [116] [chars [49; 61; 97; 61; 98]] = true /\
+  codes (body_params_result lib [116] [chars [49; 61; 97; 61; 98]]) = [91; 110; 111; 110; 101; 47; 98; 93].
+Proof. repeat split; vm_compute; reflexivity. Qed.
+
 (* #if with plain arguments, wherever it stands (any expansion path below the depth limit, with or without full
    expansion): the second argument when the first is not blank, else the third; trimmed; absent arguments are empty *)
 Theorem c04_if_with_plain_arguments :
